@@ -493,6 +493,36 @@ func genC08(g *G) {
 		}
 		g.Emit("tweak", itoa(g.Intn(3)), hex.EncodeToString(t))
 	}
+	// a Signing object run again and again (retries): every role sequence up to length 4, both ways of ending a run early
+	for n := 1; n <= 4; n++ {
+		for m := 0; m < 1<<n; m++ {
+			roles := ""
+			for b := 0; b < n; b++ {
+				roles += string("FT"[m>>b&1])
+			}
+			g.Emit("release2", "ecdsa", roles, "j")
+			g.Emit("release2", "ecdsa", roles, "s")
+		}
+	}
+	// what the ECDSA resharing tells the library: every old subset ∋ 0 of the three key holders × new committees ∋ 0 of
+	// up to five peers × old / new thresholds 0..4 (raising, lowering, equal, out of range)
+	olds := []string{"0,1", "0,2", "0,1,2", "2,0,1"}
+	news := []string{"0,1", "0,1,2", "0,2,1,3", "0,1,2,3,4", "0,3", "0,2,3,4,5", "0,1,2,3,4,5"}
+	for _, od := range olds {
+		for _, nw := range news {
+			for ot := 0; ot <= 3; ot++ {
+				for nt := 0; nt <= 4; nt++ {
+					if g.Thorough() || (ot >= 1 && ot <= 2 && nt >= 1) || g.Intn(4) == 0 {
+						g.Emit("reshareparams", itoa(ot), itoa(nt), od, nw)
+					}
+				}
+			}
+		}
+	}
+	// Bitcoin: one signing session per input
+	for i := 0; i < g.Count(8, 60); i++ {
+		g.Emit("btcsessions", itoa(1+i%4), itoa(g.Intn(3)), g.Pick([]string{"m", "1-2-77", "retry-5"}), itoa(1+g.Intn(1<<20)))
+	}
 	genC08Runs(g)
 	_ = strings.Join
 }
